@@ -567,5 +567,5 @@ def inline_cells(j, cells, order=None):
                 c = cells.get(cid)
                 out["content"] = go(c) if c is not None else None
             return out
-        return {k: go(v) for k, v in x.items()}
+        return {k: go(v) for k, v in sorted(x.items())}
     return go(j)
